@@ -118,6 +118,11 @@ func verifRefPolicy(ns, name, kind string) *conf_v1.Policy {
 		p.Spec.APIKey = &conf_v1.APIKey{SuppliedIn: &conf_v1.SuppliedIn{Header: []string{"X-Key"}}, ClientSecret: "api-" + name}
 	case "waf":
 		p.Spec.WAF = &conf_v1.WAF{Enable: true, ApPolicy: "ap-" + name, SecurityLogs: []*conf_v1.SecurityLog{{Enable: true, ApLogConf: "lc-" + name, LogDest: "stderr"}}}
+	case "wafold": // the deprecated single securityLog only
+		p.Spec.WAF = &conf_v1.WAF{Enable: true, ApPolicy: "ap-" + name, SecurityLog: &conf_v1.SecurityLog{Enable: true, ApLogConf: "lc-" + name, LogDest: "stderr"}}
+	case "wafboth": // a migrated policy that still carries the old field: the list is what the generation reads
+		p.Spec.WAF = &conf_v1.WAF{Enable: true, ApPolicy: "ap-" + name, SecurityLog: &conf_v1.SecurityLog{Enable: true, ApLogConf: "lcold-" + name, LogDest: "stderr"},
+			SecurityLogs: []*conf_v1.SecurityLog{{Enable: true, ApLogConf: "lc-" + name, LogDest: "stderr"}, {Enable: true, ApLogConf: "lc2-" + name, LogDest: "stderr"}}}
 	}
 	return p
 }
